@@ -2,7 +2,6 @@
 // One history interpreter; the mode selects which invariants run.
 #include "lib.hpp"
 #include <climits>
-#include <sys/mman.h>
 #include <pthread.h>
 using namespace fw;
 using namespace lib;
@@ -14,28 +13,6 @@ static const char *OPN[] = {"create", "create_fail", "destroy", "destroy_dead", 
 enum { MODE_C14 = 14, MODE_C15 = 15, MODE_C16 = 16 };
 static const int NSLOTS = 4;
 static bool g_explicit_lsan = true;     // the libFuzzer target switches to libFuzzer's own leak detection
-
-// ------------------------------------------------------------------ guard-page placement (C15)
-struct Guarded {
-    uint8_t *map = nullptr; size_t maplen = 0; uint8_t *p = nullptr; size_t n = 0;
-    // end_flush: buffer ends at the PROT_NONE page (over-read faults); else starts right after one (under-read faults)
-    void place(const uint8_t *src, size_t len, bool end_flush, int misalign) {
-        long pg = sysconf(_SC_PAGESIZE);
-        size_t body = (len + (size_t)misalign + pg - 1) / pg * pg + pg;
-        maplen = body + 2 * pg;
-        map = (uint8_t *)mmap(nullptr, maplen, PROT_READ | PROT_WRITE, MAP_PRIVATE | MAP_ANONYMOUS, -1, 0);
-        if (map == MAP_FAILED) abort();
-        n = len;
-        if (end_flush) p = map + pg + body - len;          // last byte just before the trailing guard page
-        else p = map + pg;                                  // first byte just after the leading guard page
-        if (end_flush && misalign == 0) p -= ((uintptr_t)p & 15);   // keep 16-alignment when asked: then ends <16 bytes before the guard
-        if (len) memcpy(p, src, len);
-        mprotect(map, pg, PROT_NONE);
-        mprotect(map + pg + body, pg, PROT_NONE);
-        mprotect(map + pg, body, PROT_READ);
-    }
-    ~Guarded() { if (map) munmap(map, maplen); }
-};
 
 struct SlotState {
     bool live = false; int desc = -1; Config g; bool has_stripe = false; Stripe s;
@@ -597,7 +574,16 @@ static Case gen_history(int mode) {
         flat.push_back(op); flat.push_back(std::get<1>(t3)); flat.push_back(std::get<2>(t3));
     }
     c.setl("ops", flat);
-    c.set("start_counter", (mode == MODE_C14 && coin(1, 4)) ? INT_MAX - pick(0, 6) : 0);
+    // where the descriptor counter stands at the start of the history: 0, just below INT_MAX, just below a
+    // power of two, or anywhere in the first thousand (descriptor values are part of the input space)
+    int64_t sc = 0;
+    if (mode == MODE_C14) switch (weighted({4, 2, 3, 3})) {
+        case 1: sc = INT_MAX - pick(0, 6); break;
+        case 2: sc = ((int64_t)1 << pick(1, 30)) - pick(0, 5); break;
+        case 3: sc = pick(0, 1000); break;
+        default: sc = 0;
+    }
+    c.set("start_counter", std::max<int64_t>(0, sc));
     c.set("salt", pick(0, 1 << 16));
     return c;
 }
@@ -616,7 +602,8 @@ static void sweep_c14() {
         if ((int)(code % ns) != shard) continue;
         std::vector<int64_t> flat; uint64_t x = code;
         for (int i = 0; i < depth; i++) { const Sym &s = alpha[x % A]; x /= A; flat.push_back(s.op); flat.push_back(s.a); flat.push_back(s.b); }
-        Case c; c.setl("ops", flat); c.set("start_counter", (code % 7 == 0) ? INT_MAX - 1 : 0); c.set("salt", 0);
+        static const int64_t starts[] = {0, INT_MAX - 1, 61, 62, 126, 254, 65534, 0};
+        Case c; c.setl("ops", flat); c.set("start_counter", starts[code % 8]); c.set("salt", 0);
         sweep_case(c, run_c14);
     }
     stats().exhaustive = true;
